@@ -90,7 +90,9 @@ class Stream:
                 m = model.get(cid, "MISSING")
                 i = impl_r.get(cid, "MISSING")
                 rel_checked += 1
-                if i.startswith(("CRASH", "HANG", "MISSING")) or "B(OUTSIDE" in i:
+                if i == "MISSING":
+                    continue
+                if i.startswith(("CRASH", "HANG")) or "B(OUTSIDE" in i:
                     fails.append({"stream": self.name, "case": line, "observed": "[release build] " + i[:600], "expected": m[:600],
                                   "why": ("release build: a call returned a slice outside the message" if "B(OUTSIDE" in i else
                                           "release build: implementation " + i[:60] + " (message ends at a PROT_NONE guard page)")})
@@ -100,11 +102,16 @@ class Stream:
         seen = set()
         nontriv = 0
         samples = []
+        missing = 0
         for line in cases:
             cid = line.split(" ", 1)[0]
             m = model.get(cid, "MISSING")
             i = impl.get(cid, "MISSING")
             body = line.split(" ", 1)[1]
+            if i == "MISSING":
+                # not run: the supervisor stops restarting workers after a few crashes/hangs
+                missing += 1
+                continue
             if m != i:
                 dis.append({"case": line, "model": m[:400], "impl": i[:400]})
             why = self.oracle(line, i, specs.get(cid), pid)
@@ -119,7 +126,9 @@ class Stream:
                     nontriv += 1
                     if len(samples) < 4:
                         samples.append({"case": body[:300], "impl": i[:300]})
-        extra = {}
+        extra = {"not_run_after_crashes": missing}
+        if missing and not any(f["observed"].startswith(("CRASH", "HANG")) or "CRASH" in f["observed"] or "HANG" in f["observed"] for f in fails):
+            dis.append({"case": "(%d cases)" % missing, "model": "-", "impl": "the harness produced no result for these cases"})
         if hasattr(self, "compared"):
             extra["calls_compared_with_abstract_machine"] = self.compared
             self.compared = 0
@@ -245,7 +254,7 @@ STREAMS = {"names": Names()}
 # ------------------------------------------------------------------------------- script streams
 import gen_msg as GM
 
-ABNORMAL = ("CRASH", "HANG", "MISSING")
+ABNORMAL = ("CRASH", "HANG")
 
 
 def split_calls(line):
@@ -1360,7 +1369,7 @@ class Net(Stream):
         self.scen = {}
         for i in range(n):
             client = NG.CLIENTS[i % 4]
-            sc = NG.gen_scenario(rng, self.focus, client)
+            sc = NG.gen_scenario(rng, self.focus, client, variant=i // 4)
             cid = "%s%d" % (self.focus[:2], i)
             self.scen[cid] = sc
             out.append(sc.line(cid))
